@@ -26,6 +26,7 @@ pub fn exec(t: &[&str]) -> Option<String> {
             "bp" => dec::<Bulletproof>(&b), "bpp" => dec::<BulletproofPlus>(&b),
             "u8" => dec::<u8>(&b), "u16" => dec::<u16>(&b), "u32" => dec::<u32>(&b), "u64" => dec::<u64>(&b),
             "vec_varint" => dec::<Vec<VarInt>>(&b), "vec_key" => dec::<Vec<Key>>(&b), "vec_u8" => { let a = dec::<Vec<u8>>(&b); let c = dec::<RawExtraField>(&b); if a == c { a } else { format!("DIFFER vec={} raw={}", a, c) } }
+            "string" => dec::<String>(&b),
             "vec_txin" => dec::<Vec<TxIn>>(&b), "vec_txout" => dec::<Vec<TxOut>>(&b),
             _ => return None }) }
         ["c01_dec_base", i, o, h] => { let b = unhex(h); let mut c = Cursor::new(&b[..]);
@@ -118,6 +119,30 @@ pub fn run(o: &mut Out, tier: &str, seed: u64) {
         }
     }
     for cnt in [1u64 << 19, (1 << 19) + 1, cap / 64, cap / 64 + 1, 1 << 25, 1 << 32, u64::MAX] { let mut b = vec![2u8, 0]; b.extend(gen::varint_bytes(cnt)); b.extend([0xff, 1]); dec_case(o, "tx", &b, "declared-length"); }
+    // explicit proof counts written in every other plausible width (raw byte / u32 / varint, minimal and two-byte) at the
+    // count position of Bulletproof / Bulletproof2 / Clsag / BulletproofPlus transactions, incl. counts across 127/128
+    for ty in [RctType::Bulletproof, RctType::Bulletproof2, RctType::Clsag, RctType::BulletproofPlus] { for n in [0usize, 1, 2, 127, 128, 129, 200] {
+        let mut t = if ty == RctType::BulletproofPlus { crate::c02::bpp_tx(n) } else { let mut t = crate::c02::bpp_tx(0); let z = Key::from([0u8; 32]);
+            if let Some(sig) = t.rct_signatures.sig.as_mut() { sig.rct_type = ty; }
+            if let Some(p) = t.rct_signatures.p.as_mut() { p.bulletproofs = (0..n).map(|_| Bulletproof { A: z, S: z, T1: z, T2: z, taux: z, mu: z, L: vec![], R: vec![], a: z, b: z, t: z }).collect();
+                if ty != RctType::Clsag { p.Clsags.clear(); p.MGs = vec![MgSig { ss: vec![vec![z, z]], cc: z }]; } }
+            t };
+        if let Some(p) = t.rct_signatures.p.as_mut() { if let Some(x) = p.pseudo_outs.first_mut() { *x = Key::from(r.arr32()); } }
+        let b = serialize(&t);
+        let pos = serialize(&t.prefix).len() + serialize(t.rct_signatures.sig.as_ref().unwrap()).len();
+        let width = match ty { RctType::Bulletproof => 4, RctType::BulletproofPlus => 1, _ => gen::varint_bytes(n as u64).len() };
+        dec_case(o, "tx", &b, "proofcount.lib");
+        for alt in [gen::varint_bytes(n as u64), (n as u32).to_le_bytes().to_vec(), vec![n as u8], { let mut v = gen::varint_bytes(n as u64); let l = v.len(); v[l - 1] |= 0x80; v.push(0); v }] {
+            let mut m = b[..pos].to_vec(); m.extend_from_slice(&alt); m.extend_from_slice(&b[pos + width..]); dec_case(o, "tx", &m, "proofcount.alt");
+        }
+    } }
+    // strings: valid / invalid UTF-8, lengths across the varint boundary
+    for sbytes in [&b""[..], b"crypto", "h\u{e9}llo \u{1f980} \u{3b2}".as_bytes(), &[0xff, 0xfe][..], &[0xc3][..], &[0xe2, 0x82][..], &[0xed, 0xa0, 0x80][..], &[0xf4, 0x90, 0x80, 0x80][..]] {
+        let mut b = gen::varint_bytes(sbytes.len() as u64); b.extend_from_slice(sbytes); dec_case(o, "string", &b, "string");
+        let mut b2 = b.clone(); b2.push(7); dec_case(o, "string", &b2, "string");
+        if !b.is_empty() { dec_case(o, "string", &b[..b.len() - 1], "string"); }
+    }
+    for len in [127usize, 128, 129, 300] { let s: String = (0..len).map(|i| if i % 7 == 0 { '\u{e9}' } else { 'a' }).collect(); let mut b = gen::varint_bytes(s.len() as u64); b.extend_from_slice(s.as_bytes()); dec_case(o, "string", &b, "string"); }
     // fixed-width primitives and raw arrays
     for ty in ["u8", "u16", "u32", "u64", "key", "hash8", "sig"] { for len in 0..=70usize { if len % 8 > 1 && len > 9 && len != 32 && len != 33 && len != 64 && len != 65 { continue; } let b = r.bytes(len); dec_case(o, ty, &b, "raw"); } }
     for len in [2047usize, 2048, 2049] { let b = r.bytes(len); dec_case(o, "key64", &b, "raw"); }
